@@ -184,17 +184,21 @@ Definition conv_delayed_map (g : Conn.geom) (w : kernel4) (b : option (list A)) 
   | Some bv => Conn.map2 (fun plane bf => map (map (fun a => add NM a bf)) plane) r bv
   end.
 
-(* forward (conv.py:551-578); like_synaptic = F.unfold per batch element *)
+(* forward (conv.py:551-578); like_synaptic = F.unfold per batch element.  F.unfold works on the dimensions the
+   input actually has (geometry g with the input's own C, H, W): an input of another size is rejected by F.unfold
+   when its block grid is empty, otherwise by the synapse when the unfolded shape differs from the synapse's. *)
 Definition conv_forward (k : conv) (c : cfg) (s : syn) (xsh : list nat) (xs : list A) (inj : list (list A))
   : syn * sres view :=
   let g := cv_g k in
-  let C := Z.to_nat (Conn.gC g) in let H := Z.to_nat (Conn.gH g) in let W := Z.to_nat (Conn.gW g) in
-  let unf := fun (d : list A) =>
-    flat3 (map (Conn.unfold NM g) (nest4 (hd 0 xsh) C H W d)) in
-  if negb (Conn.shape_eqb (tl xsh) [C; H; W]) then (s, SErr EValue)
-  else if (Conn.outH NM g <=? 0)%Z || (Conn.outW NM g <=? 0)%Z then (s, SErr ERuntime)
+  let b0 := nth 0 xsh 0 in let C := nth 1 xsh 0 in let H := nth 2 xsh 0 in let W := nth 3 xsh 0 in
+  let g' := Conn.mkG (Z.of_nat H) (Z.of_nat W) (Z.of_nat C) (Conn.gF g) (Conn.kH g) (Conn.kW g)
+                     (Conn.sH g) (Conn.sW g) (Conn.pH g) (Conn.pW g) (Conn.dH g) (Conn.dW g) in
+  let unf := fun (d : list A) => flat3 (map (Conn.unfold NM g') (nest4 b0 C H W d)) in
+  if negb (length xsh =? 4) then (s, SErr ERuntime)
+  else if (Conn.outH NM g' <=? 0)%Z || (Conn.outW NM g' <=? 0)%Z then (s, SErr ERuntime)
   else
-  match forward NM c s [hd 0 xsh; cv_N k; cv_L k] (unf xs) (map unf inj) with
+  match forward NM c s [b0; C * (Z.to_nat (Conn.kH g) * Z.to_nat (Conn.kW g));
+                        Z.to_nat (Conn.outH NM g') * Z.to_nat (Conn.outW NM g')] (unf xs) (map unf inj) with
   | SErr e => (s, SErr e)
   | SOk (s', o) =>
       let osh := [cv_B k; cv_F k; cv_HO k; cv_WO k] in
